@@ -160,21 +160,22 @@ NOT_YET = "check not built yet (work in progress, see DESIGN.md section 4)"
 ADDED = {
     "C01": " Also: other time scales (100 us / one week per lattice unit), long fixed-sequence runs, a producer 64x finer than its consumer, producers whose publication is refused now and then, components with their own clock.",
     "C02": " Also: other time scales and long fixed-sequence runs as in C01; three-component lines with the full step menu.",
-    "C03": " Also: components that finish early, the library's own components (CsvReader/CsvWriter/generators/CallbackComponent on a calendar step/debug consumers) under the same oracle; drivers that keep updating or spin without updating are reported as hangs (tight update caps, counted time reads).",
+    "C03": " Also: components that finish early, the library's own components (CsvReader/CsvWriter/generators/CallbackComponent on a calendar step/debug consumers) under the same oracle; drivers that keep updating or spin without updating are reported as hangs (tight update caps, counted time reads). Pre-run histories: connect() refused 0-2 times, missing link created afterwards through new adapters, separate connect(); every adapter finalized exactly once.",
     "C05": " Also: components that learn their time while connecting, StackTime, consumers with metadata of their own.",
-    "C06": " Also: CONNECTED is judged independently of the connector's bookkeeping (every consumer must have exchanged), masked initial data of late producers.",
+    "C06": " Also: CONNECTED is judged independently of the connector's bookkeeping (every consumer must have exchanged), masked initial data of late producers; producers whose initial value is still improving (the value of the publishing call reaches every consumer).",
     "C07": " Also: five grid orientations, rectilinear node sets of equal extent, index-based masks, with locations computed by the check itself.",
+    "C08": " Also: refused publications (an array sharing memory with retained data handed in for a newer time) as history events: afterwards the newest publication is still the old one.",
     "C09": " Also: other time scales; the data handed out by earlier pulls must not change on later pulls.",
-    "C10": " Also: static outputs, one time stamp published twice, quantities in foreign units, two compositions on one spill location.",
+    "C10": " Also: static outputs, one time stamp published twice, quantities in foreign units, two compositions on one spill location; compositions run back to back in one process until spill file names are re-used (process-wide state); refused aliasing publications.",
     "C11": " Also: a 1-microsecond lattice, a one-week unit, scripted histories of 1100-2600 publications, history-only back requests, earlier results kept and compared.",
     "C12": " Also: other time scales, a producer 64x finer than the consumer, history-only back requests (a refused request must not move the window).",
-    "C13": " Also: calendar delays (relativedelta months/years, leap years, month ends) on the real composition; masked payloads.",
+    "C13": " Also: calendar delays (relativedelta months/years, leap years, month ends) on the real composition; masked payloads; requests running ahead of the source (refused and repeated pulls).",
     "C14": " Also: size sweep to 130-200 nodes, odd spacings, integer axes, coordinate arrays shared between axes or reused for a second grid, refused location changes.",
     "C15": " Also: grids with a copy/relocate history; two data sets through one transformation object.",
     "C16": " Also: 1200-cell grids, 64-bit integer payloads, earlier results kept and compared, NaN in the first data set of a linear regridding.",
     "C17": " Also: query histories that start with refused out-of-catalogue pairs.",
     "C18": " Also: integer masks, NaN/inf payloads, one mask object updated in place between round trips, a report dictionary reused after a refused check.",
-    "C19": " Also: chains of 3-4 adapters, link creation orders, a third consumer branch, retry/repair histories after a rejected connect, the link list after run().",
+    "C19": " Also: chains of 3-4 adapters, link creation orders, a third consumer branch, retry/repair histories after a rejected connect (also through new adapters), link requests refused before connect, the link list after run().",
     "C20": " Also: zero weights and NaN, static slots under a memory limit, mergers whose first request comes from the first update.",
 }
 
